@@ -662,7 +662,7 @@ func ifaceMethodKey(cc *ssa.CallCommon) string {
 	recv := cc.Value.Type()
 	name := "?"
 	pkg := ""
-	if nt, ok := recv.(*types.Named); ok {
+	if nt, ok := types.Unalias(recv).(*types.Named); ok {
 		name = nt.Obj().Name()
 		if nt.Obj().Pkg() != nil {
 			pkg = nt.Obj().Pkg().Path()
